@@ -218,11 +218,11 @@ func NewBound(name string, s *Sort) *Term {
 	return Sym(fmt.Sprintf("bv!%s!%d", name, boundCounter), s)
 }
 
-func Forall(v *Term, body *Term) *Term {
+func Forall(v *Term, body *Term, pats ...*Term) *Term {
 	if body.IsTrue() {
 		return True
 	}
-	return intern(&Term{kind: tQuant, Op: "forall", Name: v.Name, Args: []*Term{body, v}, Sort: SBool})
+	return intern(&Term{kind: tQuant, Op: "forall", Name: v.Name, Args: append([]*Term{body, v}, pats...), Sort: SBool})
 }
 
 // substitute replaces symbol `from` by `to` in t.
@@ -664,8 +664,32 @@ func printTerm(sb *strings.Builder, t *Term, names map[*Term]string) {
 		printTerm(sb, t.Args[0], names)
 		sb.WriteString(")")
 	case tQuant:
-		sb.WriteString("(forall ((" + smtIdent(t.Name) + " " + t.Args[1].Sort.String() + ")) ")
-		printTerm(sb, t.Args[0], names)
+		// nested foralls without own patterns are merged into one binder list; Args[2:] is one multi-pattern
+		sb.WriteString("(forall (")
+		q := t
+		for {
+			sb.WriteString("(" + smtIdent(q.Name) + " " + q.Args[1].Sort.String() + ")")
+			if len(q.Args) == 2 && q.Args[0].kind == tQuant {
+				q = q.Args[0]
+				continue
+			}
+			break
+		}
+		sb.WriteString(") ")
+		if len(q.Args) > 2 {
+			sb.WriteString("(! ")
+			printTerm(sb, q.Args[0], names)
+			sb.WriteString(" :pattern (")
+			for i, pt := range q.Args[2:] {
+				if i > 0 {
+					sb.WriteString(" ")
+				}
+				printTerm(sb, pt, names)
+			}
+			sb.WriteString("))")
+		} else {
+			printTerm(sb, q.Args[0], names)
+		}
 		sb.WriteString(")")
 	case tUF:
 		if len(t.Args) == 0 {
